@@ -1312,17 +1312,21 @@ class ValueObject(Value):
         del self.value[key]
         return self.value
 
-    def resolveItem(self, key):
-        if self.hasItem(key):
-            return self.getItem(key)
+    def findHolder(self, key):
+        # the object on the prototype chain that has the member; the chain
+        # ends at a _proto_ that is not an object or was visited before
         current = self
-        while current.hasItem("_proto_"):
-            current = current.getItem("_proto_")
-            if not current:
-                break
+        seen = set()
+        while isinstance(current, ValueObject) and id(current) not in seen:
             if current.hasItem(key):
-                return current.getItem(key)
+                return current
+            seen.add(id(current))
+            current = current.getItem("_proto_")
         return None
+
+    def resolveItem(self, key):
+        holder = self.findHolder(key)
+        return holder.getItem(key) if holder else None
 
     def type(self):
         return "object"
